@@ -34,6 +34,7 @@ import (
 
 type listEnv struct {
 	scanFault bool
+	lastCode  int
 	e         *env
 	labels    *service.QueryLabelsService
 	router    *mux.Router
@@ -86,6 +87,7 @@ func (le *listEnv) get(path string) string {
 	rec := httptest.NewRecorder()
 	req := httptest.NewRequest("GET", path, nil)
 	le.router.ServeHTTP(rec, req)
+	le.lastCode = rec.Code
 	return rec.Body.String()
 }
 
@@ -263,10 +265,21 @@ func (le *listEnv) runList(endpoint string, r *rand.Rand, n int, errAt int, spec
 		inputDesc = map[string]any{"spans": clipAll(names), "row_source_fails_at": errAt, "row_unscannable": scanFault, "string_class": class}
 		le.script([]string{"trace_id", "span_id", "parent_id", "timestamp_ns", "duration_ns", "payload_type", "payload"}, rows, errAt)
 		body = le.get("/api/traces/" + hex.EncodeToString(traceID))
+		code := le.lastCode
 		check = func(doc any) (string, string) {
 			o, ok := asObj(doc)
 			if !ok {
 				return "shape", "not an object"
+			}
+			if want == 0 {
+				// no span: Tempo's answer is 404 "trace not found" (e56f58e), one error document and nothing of the trace document
+				if _, has := o["resourceSpans"]; code != 404 || has || o["status"] != "error" || o["error"] != "trace not found" {
+					return "shape", fmt.Sprintf("no span: status %d, not the one 404 error document", code)
+				}
+				return "", ""
+			}
+			if code != 200 {
+				return "shape", fmt.Sprintf("status %d for %d spans", code, want)
 			}
 			rs, ok := o["resourceSpans"].([]any)
 			if !ok || len(rs) != 1 {
